@@ -403,6 +403,78 @@ def part_collector_empty_blocks(chk):
         chk.count('diagnostic collector with an empty block')
 
 
+def part_checkpoint_plot_rank(chk, drv=None):
+    """a checkpoint written (and read back) by a run WITH a plot-only process: file creation, dataset creation (same name, shape and type on
+    every member), attribute creation and close are collective over the communicator of the grid, which contains the plot-only process
+    (finding F30: that process created the dataset with the shape (0,0,0,0))"""
+    import shutil
+    import h5py
+    common.use_repo(h5=True)
+    from pygyro.initialisation.setups import setupCylindricalGrid
+    from pygyro.model.process_grid import compute_2d_process_grid
+    rng = chk.rng
+    work = tempfile.mkdtemp(prefix='pgc06p')
+    try:
+        for it in range(chk.n(4, 16)):
+            while True:
+                nranks = [3, 4, 5, 3][it % 4]
+                draw = [0, nranks - 1, 1, 2][it % 4]
+                npts = [rng.choice([4, 5, 6]), 8, rng.choice([4, 6]), rng.choice([6, 7])]
+                try:
+                    compute_2d_process_grid(npts, nranks - 1)
+                    break
+                except RuntimeError:
+                    continue
+            lay = ['v_parallel', 'flux_surface', 'poloidal'][it % 3]
+            folder = os.path.join(work, 'run%d' % it)
+            os.makedirs(folder)
+
+            def body():
+                comm = MPI.COMM_WORLD
+                grid, constants, t = setupCylindricalGrid(npts=npts, layout=lay, comm=comm, plotThread=True, drawRank=draw, eps=0.1)
+                grid.writeH5Dataset(folder, 5)
+                kept = np.array(grid.getAllData(), copy=True)
+                grid.getAllData()[:] = -1.0
+                grid.loadFromFile(folder, 5)
+                return bool(np.array_equal(np.asarray(grid.getAllData()), kept))
+            case = {'nranks': nranks, 'drawRank': draw, 'npts': npts, 'layout': lay, 'what': 'checkpoint write / read with a plot-only process'}
+            ref = run_policies(chk, nranks, body, case, 'checkpoint with a plot-only process', policies=('reverse', 'random'))
+            if ref is None:
+                continue
+            if not all(ref.values()):
+                chk.fail('C06:checkpoint-plot-rank', 'a checkpoint written and read back by a run with a plot-only process does not give back the blocks', case)
+            std4 = {'flux_surface': [0, 3, 1, 2], 'v_parallel': [0, 2, 1, 3], 'poloidal': [3, 2, 1, 0]}
+            # correspondence: the collectives of parallel HDF5 recorded on every rank during writeH5Dataset vs Model/Traces.lean
+            # checkpointTrace (the loadFromFile that follows opens the file once more and closes it)
+            if drv is not None:
+                mo = drv.call({'op': 'checkpoint_trace', 'nglobal': npts, 'ord': std4[lay], 'file': 'grid_000005.h5'})
+                want = [(c['op'], c['name'], tuple(c['shape'])) for c in mo['trace']]
+                for rk in range(nranks):
+                    rec = [t for t in ref.traces[rk] if str(t[1]).startswith('h5py.')][:len(want)]
+                    got = []
+                    for t in rec:
+                        op_ = t[1][len('h5py.'):]
+                        if op_ == 'create_dataset':
+                            got.append((op_, t[2][0], tuple(int(x) for x in t[2][1])))
+                        elif op_ == 'attrs.create':
+                            got.append((op_, t[2], (4,)))
+                        else:
+                            got.append((op_, t[2], ()))
+                    if got != want:
+                        chk.diff('collectives of writeH5Dataset on rank %d' % rk, case, want, got)
+                        break
+            with h5py.File(os.path.join(folder, 'grid_000005.h5'), 'r') as fh:
+                shp = tuple(fh['dset'].shape)
+            if shp != tuple(npts[d] for d in std4[lay]):
+                chk.fail('C06:checkpoint-plot-rank', 'the dataset of a checkpoint written with a plot-only process has the shape %s' % (shp,), case,
+                         expected=[npts[d] for d in std4[lay]], actual=list(shp))
+            chk.case(('ckpt-plot', nranks, draw, tuple(npts), lay), nontrivial=True)
+            chk.traces_validated += nranks
+            chk.count('checkpoint with a plot-only process')
+    finally:
+        shutil.rmtree(work, ignore_errors=True)
+
+
 def part_setup_restart(chk):
     """set-up, setupSave (bcast iff no folder name), checkpoint write and the restart set-up (setupFromFile), with and without a
     plot-only rank: every member must issue the same collectives on the same communicators"""
@@ -670,9 +742,14 @@ def run(chk):
     part_collector_empty_blocks(chk)
     part_grid_layout_changes(chk)
     part_swapper_plot_rank(chk)
+    drv2 = common.LeanDriver('C06.lean')
+    try:
+        part_checkpoint_plot_rank(chk, drv2)
+    finally:
+        drv2.close()
     part_setup_restart(chk)
     part_driver(chk)
     chk.assumptions = ['real MPI implements blocking collectives matched per communicator in program order (the abstract machine of Model/Collectives.lean); '
                        'the simulated MPI implements that machine',
-                       'collective calls made by h5py/HDF5 internally are represented by the shim\'s Barrier rendezvous']
+                       'the operations parallel HDF5 defines as collective (file open, dataset creation with its arguments, attribute creation, close) are named rendezvous points of the h5py stand-in']
     return chk.finish()
